@@ -106,7 +106,9 @@ theorem latest_succ : ∀ (N : List SNote) (t : Int), N.Pairwise (fun x y => x.a
           have : N.filter (fun d => decide (d.a < t)) = [] := by
             cases hf0 : N.filter (fun d => decide (d.a < t)) with
             | nil => rfl
-            | cons y ys => rw [hf0] at ih'; simp at ih'
+            | cons y ys =>
+              rw [hf0] at ih'
+              exact absurd (List.getLast?_eq_none_iff.mp ih'.symm) (by simp)
           rw [this]
       | cons y ys =>
         rw [hf1] at ih'
@@ -352,8 +354,132 @@ theorem first_tab {N' : List SNote} {n0 : SNote} (hs : (n0 :: N').Pairwise (fun 
 
 /-! ### the end of the line -/
 
-theorem lastMark_append_replicate (pre : List Int) (m : Nat) :
-    lastMark (pre ++ List.replicate m C07.Gen.MELODY_NO_EVENT) = lastMark pre := by
-  sorry
+theorem sorted_le_last : ∀ (N : List SNote) (last : SNote), N.Pairwise (fun x y => x.a < y.a) →
+    N.getLast? = some last → ∀ d ∈ N, d.a ≤ last.a := by
+  intro N
+  induction N with
+  | nil => intro last _ h; simp at h
+  | cons n N ih =>
+    intro last hs hl d hd
+    obtain ⟨hn, hs'⟩ := List.pairwise_cons.mp hs
+    cases N with
+    | nil =>
+      simp only [List.getLast?_singleton, Option.some.injEq] at hl
+      subst hl
+      rcases List.mem_cons.mp hd with rfl | h
+      · omega
+      · simp at h
+    | cons m N' =>
+      rw [List.getLast?_cons_cons] at hl
+      have hlm : last ∈ m :: N' := List.mem_of_getLast? hl
+      rcases List.mem_cons.mp hd with rfl | h
+      · have := hn last hlm; omega
+      · exact ih last hs' hl d h
+
+theorem lastMark_append (pre suf : List Int) :
+    lastMark (pre ++ suf) = match lastMark suf with
+      | some (some j) => some (some (pre.length + j))
+      | some none => some none
+      | none => lastMark pre := by
+  induction pre with
+  | nil =>
+    simp only [List.nil_append, List.length_nil, Nat.zero_add]
+    cases lastMark suf with
+    | none => rfl
+    | some m => cases m <;> rfl
+  | cons x pre ih =>
+    simp only [List.cons_append, List.length_cons]
+    rw [lastMark, ih]
+    cases lastMark suf with
+    | none => simp only; rw [lastMark]
+    | some m =>
+      cases m with
+      | none => rfl
+      | some j => simp only [Option.some.injEq]; omega
+
+theorem lastMark_replicate (m : Nat) : lastMark (List.replicate m C07.Gen.MELODY_NO_EVENT) = none := by
+  induction m with
+  | zero => rfl
+  | succ m ih =>
+    rw [List.replicate_succ, lastMark, ih]
+    simp [isPitch_no_event, show ¬ C07.Gen.MELODY_NO_EVENT = C07.Gen.MELODY_NOTE_OFF by decide]
+
+/-- the reading from the last note's onset on: its pitch, NO_EVENTs while it sounds, and — if the line goes on —
+its NOTE_OFF followed by NO_EVENTs -/
+theorem end_tab {gap : Int} {N : List SNote} (hN : ChainData gap N) (last : SNote)
+    (hlast : N.getLast? = some last) (h0 : 0 ≤ last.a) (padterm : Nat) :
+    lastMark (tab (ruleAt N) 0 (last.b.toNat + padterm)) =
+      if padterm = 0 then some none else some (some last.b.toNat) := by
+  have hmem : last ∈ N := List.mem_of_getLast? hlast
+  obtain ⟨hab, hp⟩ := hN.valid last hmem
+  -- every onset is at or before the last note's
+  have hle : ∀ d ∈ N, d.a ≤ last.a := sorted_le_last N last hN.sorted hlast
+  -- after the last onset, the latest onset is the last note
+  have hlatest : ∀ t, last.a < t → latest N t = some last ∧ onset N t = none := by
+    intro t ht
+    constructor
+    · unfold latest
+      have : N.filter (fun d => decide (d.a < t)) = N := by
+        rw [List.filter_eq_self]; intro d hd; have := hle d hd; simp; omega
+      rw [this, hlast]
+    · unfold onset
+      rw [List.find?_eq_none]; intro d hd; have := hle d hd; simp; omega
+  have hmid : ∀ t, last.a < t → t < last.b → ruleAt N t = C07.Gen.MELODY_NO_EVENT := by
+    intro t h1 h2
+    obtain ⟨e1, e2⟩ := hlatest t h1
+    rw [ruleAt_eq, e2, e1]
+    simp only
+    rw [if_neg (by omega)]
+  have hoff : ruleAt N last.b = C07.Gen.MELODY_NOTE_OFF := by
+    obtain ⟨e1, e2⟩ := hlatest last.b hab
+    rw [ruleAt_eq, e2, e1]
+    simp
+  have hafter : ∀ t, last.b < t → ruleAt N t = C07.Gen.MELODY_NO_EVENT := by
+    intro t h1
+    obtain ⟨e1, e2⟩ := hlatest t (by omega)
+    rw [ruleAt_eq, e2, e1]
+    simp only
+    rw [if_neg (by omega)]
+  have hon : isPitch (ruleAt N last.a) = true := by
+    rw [ruleAt_eq]
+    cases ho : onset N last.a with
+    | none => exact absurd rfl (onset_none ho last hmem)
+    | some d => exact (hN.valid d (onset_some ho).1).2
+  -- split the table
+  have hA : ((last.a.toNat : Nat) : Int) = last.a := by omega
+  have hB : ((last.b.toNat : Nat) : Int) = last.b := by omega
+  have hsplit : last.b.toNat + padterm = last.a.toNat + (1 + ((last.b.toNat - last.a.toNat - 1) + padterm)) := by omega
+  rw [hsplit, tab_append, tab_append, tab_append]
+  simp only [Int.zero_add, hA]
+  have e1 : tab (ruleAt N) last.a 1 = [ruleAt N last.a] := rfl
+  have e2 : tab (ruleAt N) (last.a + ((1 : Nat) : Int)) (last.b.toNat - last.a.toNat - 1) =
+      List.replicate (last.b.toNat - last.a.toNat - 1) C07.Gen.MELODY_NO_EVENT := by
+    apply tab_const
+    intro t h1 h2
+    exact hmid t (by push_cast at h1; omega) (by push_cast at h2; omega)
+  have e3 : last.a + ((1 : Nat) : Int) + ((last.b.toNat - last.a.toNat - 1 : Nat) : Int) = last.b := by omega
+  rw [e1, e2, e3]
+  cases padterm with
+  | zero =>
+    simp only [tab, List.append_nil, ↓reduceIte]
+    rw [lastMark_append, lastMark_append, lastMark_replicate]
+    simp only
+    rw [lastMark, lastMark]
+    simp [hon]
+  | succ m =>
+    have e4 : tab (ruleAt N) last.b (m + 1) = C07.Gen.MELODY_NOTE_OFF :: List.replicate m C07.Gen.MELODY_NO_EVENT := by
+      simp only [tab, hoff]
+      congr 1
+      apply tab_const
+      intro t h1 h2
+      exact hafter t (by omega)
+    rw [e4, if_neg (by omega)]
+    rw [lastMark_append, lastMark_append, lastMark_append]
+    have e5 : lastMark (C07.Gen.MELODY_NOTE_OFF :: List.replicate m C07.Gen.MELODY_NO_EVENT) = some (some 0) := by
+      rw [lastMark, lastMark_replicate]
+      simp [isPitch_note_off]
+    rw [e5]
+    simp only [tab_length, List.length_cons, List.length_nil, List.length_replicate, Option.some.injEq]
+    omega
 
 end NSV.C06
